@@ -76,6 +76,7 @@ def main():
     ap.add_argument('--id', default='')
     ap.add_argument('--jobs', type=int, default=16)
     ap.add_argument('-v', action='store_true')
+    ap.add_argument('--json', action='store_true')
     a = ap.parse_args()
     muts = json.loads((VERIF / 'selftest' / 'mutants.json').read_text())
     # seeded changes written by independent sub-agents (see seeded/*/meta.json)
@@ -91,13 +92,30 @@ def main():
         muts = [m for m in muts if m['id'] == a.id]
     bad = 0
     with ThreadPoolExecutor(a.jobs) as ex:
+        if a.json and a.only:
+            muts = [dict(m, props=[p for p in m['props'] if p in set(a.only.split(','))])
+                    for m in muts]
+        results = []
         for m, status, txt in ex.map(lambda m: run_one(m, a.v), muts):
             good = status == 'OK'
             bad += not good
+            results.append({'id': m['id'], 'kind': 'benign' if m.get('benign') else 'must-fire',
+                            'status': status})
+            if a.json:
+                continue
             if not good or a.v:
                 print(f"{status:15s} {m['id']:40s} {','.join(m['props'])} {m.get('why', '')[:70]}")
                 if txt and (a.v or not good):
                     print('    ' + txt.replace('\n', '\n    ')[-1500:])
+    if a.json:
+        print(json.dumps({
+            'variants': len(muts), 'as_expected': len(muts) - bad,
+            'must_fire': sum(1 for m in muts if not m.get('benign')),
+            'benign': sum(1 for m in muts if m.get('benign')),
+            'seeded': sum(1 for m in muts if m.get('patch')),
+            'stale': sum(1 for r in results if r['status'] == 'STALE'),
+            'results': results}))
+        return 0
     print(f'{len(muts)} variants, {len(muts) - bad} as expected, {bad} not')
     return 1 if bad else 0
 
